@@ -4,7 +4,10 @@ import net, gens
 from runner import Script, Cfg
 
 ID = "C18"
-THEOREMS = ["C18_ssh_reference_grammar", "C18_ssh_reference_first_crlf", "C18_ssh_parser_language",
+THEOREMS = ["Later.Later_ssh_repl", "Later.Later_ghost_repl", "Later.Later_ssh_proto", "Later.Later_ghost_proto", "Later.Later_ssh_frame",
+            "Later.Later_ghost_frame", "Later.Later_ssh_flow", "Later.Later_ghost_flow", "Later.Later_current_ssh_flow",
+            "Later.Later_current_ghost_flow", "Later.Later_ssh_example_flow", "Later.Later_ghost_example_flow",
+            "C18_ssh_reference_grammar", "C18_ssh_reference_first_crlf", "C18_ssh_parser_language",
             "C18_ssh_repl_exact", "C18_ssh_repl_iff", "C18_dispatch_ssh", "C18_dispatch_ghost",
             "C18_udp_ssh", "C18_udp_ghost", "C18_tcp_first_ssh", "C18_tcp_first_ghost", "C18_constants",
             "C18_prefix_identified_sound", "C18_current_tables_identify", "C18_app_udp", "C18_app_tcp_first",
@@ -12,7 +15,8 @@ THEOREMS = ["C18_ssh_reference_grammar", "C18_ssh_reference_first_crlf", "C18_ss
             "C18_current_ssh_identification", "C18_current_ghost_identification",
             "C18_frame_udp", "C18_frame_tcp_first_state", "C18_frame_tcp_first_history",
             "C18_current_frame_udp", "C18_current_frame_tcp_first", "SrcTie.src_ssh_ghost_literals", "Env.the_env_ok"]
-MONITORS = ["C18udp", "C18tcp"]
+MONITORS = ["C18udp", "C18tcp", "C18later_ssh", "C18later_ghost"]
+LATER_SSH, LATER_GHOST = set(), set()      # later segments of flows bound to the SSH / Gh0st responder (filled by generate)
 RULE = ("SSH identification strings built from version strings (2.0 / 1.99 / extra digits and dots / non-digits), software "
         "and comment strings over all 256 byte values (weighted towards CR, LF, SP, '-'), every terminator variant (CR LF, "
         "LF only, CR only, none, CR runs, CR x LF for every byte x), trailing bytes, every prefix / single-byte deletion / "
@@ -190,7 +194,12 @@ def generate(tier, rng):
             s, d = gens.addr_pair(v6)
             for k in range(0, len(later), 4):
                 sport += 1
-                fr += gens.handshake(keys[0], s, d, sport, 22, [first] + later[k:k + 4])
+                fl = gens.handshake(keys[0], s, d, sport, 22, [first] + later[k:k + 4])
+                fr += fl
+                if first.endswith(b"\r\n"):
+                    LATER_SSH.update(fl[2:])
+                elif first.startswith(b"Gh0st"):
+                    LATER_GHOST.update(fl[2:])
     yield Script(gens.cfgs(key=keys[0])[0], fr, "later-segments")
 
 
@@ -232,6 +241,19 @@ def project(script, i, o):
     if r is None:
         return None
     return app_of(r[0], o)
+
+
+NOSHRINK_MONITORS = ("C18later_ssh", "C18later_ghost")
+
+
+def monitor_applies(name, script, i):
+    """the later-segment monitors (Spec/Later.v, proved of the model in Properties/Later.v) judge only the frames the
+    generator built as later segments of a flow whose first segment is a valid request of that responder"""
+    if name == "C18later_ssh":
+        return script.frames[i] in LATER_SSH
+    if name == "C18later_ghost":
+        return script.frames[i] in LATER_GHOST
+    return True
 
 
 def history_monitor(script, outs):
